@@ -138,7 +138,7 @@ class Sim:
     def rst(self, fd):
         return self.cmd("rst %d" % fd)
 
-    def wpol(self, fd, budget=None, cap=None, err=None, after=0):
+    def wpol(self, fd, budget=None, cap=None, err=None, after=0, once=False):
         s = "wpol %d" % fd
         if budget is not None:
             s += " budget=%s" % ("inf" if budget < 0 else budget)
@@ -146,6 +146,8 @@ class Sim:
             s += " cap=%s" % ("inf" if cap < 0 else cap)
         if err is not None:
             s += " err=%d after=%d" % (err, after)
+            if once:
+                s += " once=1"
         return self.cmd(s)
 
     def drain(self, fd):
